@@ -1,4 +1,5 @@
 from vlib import Obl, PORTFOLIO
+from props.ts_common import ts_obl
 
 TITLE = 'Files conform to the published format; an independent decoder agrees'
 LEVEL_TEXT = ('bounded symbolic verification that the real writer layers establish the file invariant of format.h, checked by an independent decoder in the harness: '
@@ -19,4 +20,8 @@ def obligations(tier):
                  unwind=pm + 40, timeout=900, backend=PORTFOLIO,
                  desc='append %d chunks (symbolic payload length 0..%d incl. zero-length) + close; independent forward decode' % (nch, pm),
                  bound='%d chunks, payload <= %d bytes' % (nch, pm)))
+    o.append(ts_obl('O4_ts_levels_anno_D2_N5', False, 2, 5, timeout=900 if tier == 'quick' else 2400))
+    if tier == 'thorough':
+        o.append(ts_obl('O4_ts_levels_utc_D2_N7', True, 2, 7, timeout=3000, tiers=('thorough',)))
+        o.append(ts_obl('O4_ts_levels_anno_D3_N10', False, 3, 10, timeout=3000, tiers=('thorough',)))
     return o
